@@ -464,6 +464,97 @@ def check_recursive(case):
     return fails, okind
 
 
+class _Obj:
+    def __init__(self, **kw):
+        self.__dict__.update(kw)
+
+
+REENTER_SEQS = {
+    'objs': lambda: [_Obj(a=1), _Obj(a=2)],
+    'strs': lambda: ['s', 't'],
+    'obj-str': lambda: [_Obj(a=1), 'tail'],
+    'str-obj': lambda: ['head', _Obj(a=2)],
+    'ints': lambda: [1, 2, 3],
+    'pairs': lambda: [('k', _Obj(a=1)), ('l', 'str')],
+    'one': lambda: [_Obj(a=9)],
+    'empty': lambda: [],
+}
+REENTER_OPTS = ['', 'size=2 orphan=0', 'prefix=p', 'no_push_item',
+                'size=1 start=2 orphan=0', 'reverse', 'sort=sequence-item']
+
+
+def reentered_programs():
+    """One compiled block tag active twice at a time: the body of a loop
+    (with, let) renders the same template again with other data, at its
+    first or its last element."""
+    for opts in REENTER_OPTS:
+        for outer in sorted(REENTER_SEQS):
+            for inner in sorted(REENTER_SEQS):
+                if 'sort' in opts and ('obj' in outer + inner or
+                                       'pairs' in outer + inner):
+                    continue
+                for at in (1, 2):
+                    yield dict(reentered=True, opts=opts, outer=outer,
+                               inner=inner, at=at)
+
+
+def check_reentered(case):
+    from DocumentTemplate._DocumentTemplate import TemplateDict
+    from DocumentTemplate import HTML
+    src = ('<dtml-with oa><dtml-let la=va><dtml-in seq %s><dtml-var hook>'
+           '[<dtml-var sequence-index>]<dtml-else>none</dtml-in></dtml-let>'
+           '</dtml-with>' % case['opts'])
+    key = ('reentered', src)
+    t = _TCACHE.get(key)
+    if t is None:
+        t = _TCACHE[key] = HTML(src)
+    state = dict(n=0, busy=False)
+
+    def hook():
+        state['n'] += 1
+        if state['n'] == case['at'] and not state['busy']:
+            state['busy'] = True
+            try:
+                t(seq=REENTER_SEQS[case['inner']](), hook='', va='i',
+                  oa=_Obj(x=1))
+            except Exception:
+                pass
+            finally:
+                state['busy'] = False
+        return ''
+    ns = dict(seq=REENTER_SEQS[case['outer']](), hook=hook, va='⟦A⟧', vn=7,
+              oa=_Obj(x=2))
+    md = TemplateDict()
+    md._push(ns)
+    md.guarded_getattr = None
+    md.guarded_getitem = None
+    md.level = 0
+    before = (tuple(id(x) for x in md._data), md.level)
+    try:
+        out = ('text', t(None, md))
+    except Exception as e:
+        out = ('raise', e)
+    after = (tuple(id(x) for x in md._data), md.level)
+    okind = out[0] if out[0] != 'raise' else 'raise:' + type(out[1]).__name__
+    if after != before:
+        return [('stack-after-call:reentered:entries%+d:level%+d' % (
+            len(after[0]) - len(before[0]), after[1] - before[1]), case,
+            '%r over %s, rendered again over %s from inside the body at hook '
+            'call %d, ended (%s) with %d namespace entries, level %d; on '
+            'entry %d, level %d' % (src, case['outer'], case['inner'],
+                                    case['at'], okind, len(after[0]),
+                                    after[1], len(before[0]), before[1]))], \
+            okind
+    try:
+        again = HTML('<dtml-var va>|<dtml-var vn>')(None, md)
+    except Exception as e:
+        again = repr(e)
+    if again != '⟦A⟧|7':
+        return [('namespace-unusable-after-catch:reentered', case,
+                 '%r then gives %r' % (src, again))], okind
+    return [], okind
+
+
 def strategy():
     from hypothesis import strategies as st
     return st.fixed_dictionaries(dict(
@@ -476,11 +567,21 @@ def plan(tier, seed):
     n = 40 if tier == "quick" else 800
     return [dict(seed=seed * 1000 + i, n=n) for i in range(16)] + \
         [dict(enum=True, part=i, parts=8) for i in range(8)] + \
-        [dict(recursive=True, part=i, parts=4) for i in range(4)]
+        [dict(recursive=True, part=i, parts=4) for i in range(4)] + \
+        [dict(reentered=True)]
 
 
 def run_shard(shard):
     acc = Acc(ID, sample_every=997)
+    if shard.get('reentered'):
+        for case in reentered_programs():
+            fails, okind = check_reentered(case)
+            acc.case(case, True, klass=['reentered', 'reentered-ends:' +
+                                        okind],
+                     distinct_by_construction=True)
+            for b, c, msg in fails:
+                acc.fail(b, c, msg)
+        return acc.result()
     if shard.get('recursive'):
         for k, case in enumerate(recursive_programs()):
             if k % shard['parts'] != shard['part']:
@@ -516,6 +617,9 @@ def run_shard(shard):
 
 
 def replay(case):
+    if case.get('reentered'):
+        f, _ = check_reentered(case)
+        return (f[0][0], f[0][2]) if f else None
     if case.get('recursive'):
         f, _ = check_recursive(case)
         return (f[0][0], f[0][2]) if f else None
